@@ -12,6 +12,10 @@ REF_CALLS = {'Cudd_Ref', 'cuddRef', 'sylvan_ref', 'bdd_addref'}
 DEREF_CALLS = {'Cudd_RecursiveDeref', 'Cudd_RecursiveDerefZdd', 'Cudd_Deref',
                'cuddDeref', 'sylvan_deref', 'bdd_delref'}
 
+# library calls whose RESULT comes with a reference that the caller owns and
+# must give back (CUDD's own operators return unreferenced nodes)
+OWNING_CALLS = {'Dddmp_cuddBddLoad', 'Dddmp_cuddBddArrayLoad', 'Dddmp_cuddAddLoad'}
+
 BACKENDS = {
     'cudd': 'dd/cudd.pyx',
     'cudd_zdd': 'dd/cudd_zdd.pyx',
@@ -162,68 +166,167 @@ def _strings(s):
     return out
 
 
+_OP_NOT_IN = re.compile(r"^(if|elif) op not in \\((.*)\\):$")
+_OP_NE = re.compile(r"^(if|elif) op != (r?'[^']*'):$")
+_ASSIGN = re.compile(r'^([A-Za-z_]\w*)\s*(?::\s*[\w\.]+)?\s*=\s*(.+)$')
+
+
+def _op_cond(s):
+    """(kind, strings, negated) for a condition on `op`, else None."""
+    for rx, neg in ((_OPS_IN, False), (_OP_EQ, False), (_OP_NOT_IN, True), (_OP_NE, True)):
+        m = rx.match(s)
+        if m:
+            return m.group(1), _strings(m.group(2)), neg
+    return None
+
+
+def _children(body, i, ind):
+    """Index after the block of statements more indented than `ind` starting at i."""
+    j = i
+    while j < len(body) and body[j][0] > ind:
+        j += 1
+    return j
+
+
+def _run(backend, body, op):
+    """Execute the statements of `apply` for ONE concrete operator symbol.
+
+    Conditions on `op` (in / not in / == / !=, at any nesting depth) are
+    decided; every other condition is a guard on the operands: a guard whose
+    block raises is taken as false (the call is inside its contract), any
+    other guard is followed.  Returns the expression assigned to `r`, or
+    ['raise'] when the symbol is rejected."""
+    env = {}
+    state = dict(result=None, raised=False, in_op=0)
+
+    def block(i, end, ind):
+        # statements body[i:end] at indentation `ind`
+        chain_taken = None        # inside an if/elif/else chain on `op`: has a branch been taken?
+        while i < end and not state['raised']:
+            cind, st = body[i]
+            nxt = _children(body, i + 1, cind)
+            oc = _op_cond(st)
+            if oc:
+                kw, strs, neg = oc
+                hit = (op in strs) != neg
+                if kw == 'if':
+                    chain_taken = False
+                take = hit and not chain_taken
+                if take:
+                    chain_taken = True
+                    state['in_op'] += 1
+                    block(i + 1, nxt, cind)
+                    state['in_op'] -= 1
+                i = nxt
+                continue
+            if st == 'else:':
+                if chain_taken is None:
+                    # the else of an operand guard that was followed: skip it
+                    i = nxt
+                    continue
+                if not chain_taken:
+                    chain_taken = True
+                    state['in_op'] += 1
+                    block(i + 1, nxt, cind)
+                    state['in_op'] -= 1
+                i = nxt
+                continue
+            if st.startswith(('if ', 'elif ')) and st.endswith(':'):
+                inner = [x for _, x in body[i + 1:nxt]]
+                if st.startswith('elif ') and chain_taken is not None:
+                    # an operand condition inside a chain on `op` (buddy: `elif v is None:`)
+                    if not chain_taken and not any(x.startswith('raise') for x in inner):
+                        chain_taken = True
+                        block(i + 1, nxt, cind)
+                    i = nxt
+                    continue
+                chain_taken = None
+                if any(x.startswith('raise') for x in inner):
+                    i = nxt               # guard that rejects: outside the contract
+                    continue
+                block(i + 1, nxt, cind)   # operand guard: followed
+                i = nxt
+                continue
+            chain_taken = None if cind <= ind and not st.startswith(('elif', 'else')) else chain_taken
+            if st.startswith('raise'):
+                state['raised'] = True
+                return
+            if st.startswith('return'):
+                i = nxt
+                continue
+            m = _ASSIGN.match(st)
+            if not m:
+                mc = re.match(r'^(?:\w+\.)?(\w+)\s*\(', st)
+                if mc and (mc.group(1) in REF_CALLS | DEREF_CALLS
+                           or mc.group(1) in ('assert_operator_arity', 'incref', 'decref')):
+                    i = nxt
+                    continue
+                if st.startswith(("f'", "'", '"', 'f"')) or st.endswith(("')", '")')):
+                    i = nxt
+                    continue
+                if not state['in_op']:
+                    i = nxt               # declarations / set-up outside the branches on `op`
+                    continue
+                raise MachineryError('%s.apply: unrecognised statement %r' % (backend, st))
+            var, rhs = m.group(1), m.group(2)
+            try:
+                e = subst(parse_expr(rhs), env)
+            except MachineryError:
+                if state['in_op']:
+                    raise
+                i = nxt
+                continue
+            if var == 'r':
+                state['result'] = e
+            env[var] = e
+            i = nxt
+    block(0, len(body), body[0][0] if body else 0)
+    if state['raised'] and state['result'] is None:
+        return ['raise']
+    if state['raised']:
+        return ['raise']
+    return state['result']
+
+
 def extract_apply(backend):
+    """The table operator symbol -> abstract result expression of `apply`,
+    obtained by executing the method's statements for every symbol that
+    occurs in a condition on `op` (at any nesting depth)."""
     path = os.path.join(REPO, BACKENDS[backend])
     lines, lineno = read_method(path, 'apply')
     ll = logical_lines(strip_docstring(lines))
-    # skip the signature
     k = 0
-    while k < len(ll) and not ll[k][1].rstrip().endswith('):') :
+    while k < len(ll) and not ll[k][1].rstrip().endswith('):'):
         k += 1
     body = ll[k + 1:]
-    branches = []
-    cur = None
-    accounted = 0
-    prelude = []
-    for ind, s in body:
-        m = _OPS_IN.match(s)
-        m2 = _OP_EQ.match(s)
-        if m or m2:
-            ops = _strings(m.group(2)) if m else _strings(m2.group(2))
-            cur = dict(ops=ops, stmts=[], indent=ind, kw=(m or m2).group(1))
-            branches.append(cur)
+    symbols = []
+    for _, st in body:
+        oc = _op_cond(st)
+        if oc:
+            for x in oc[1]:
+                if x not in symbols:
+                    symbols.append(x)
+    if not symbols:
+        raise MachineryError('%s.apply: no condition on `op` found' % backend)
+    groups = []          # [(expr, [ops])] in order of first appearance
+    for op in symbols:
+        e = _run(backend, body, op)
+        if e is None:
+            raise MachineryError('%s.apply: symbol %r assigns no result' % (backend, op))
+        if e == ['raise']:
             continue
-        if cur is not None and ind > cur['indent']:
-            cur['stmts'].append(s)
-            continue
-        if s == 'else:' and cur is not None:
-            cur = dict(ops=['<else>'], stmts=[], indent=ind, kw='else')
-            branches.append(cur)
-            continue
-        cur = None if not (cur and ind > cur['indent']) else cur
-        prelude.append(s)
-    table = []
-    for br in branches:
-        if br['ops'] == ['<else>']:
-            # must reject: raise
-            if not all(x.startswith('raise') or x.startswith("f'") or x.startswith("'") for x in br['stmts'][:1]):
-                raise MachineryError('%s.apply: else branch does not raise: %r' % (backend, br['stmts']))
-            continue
-        env = {}
-        result = None
-        for st in br['stmts']:
-            if st.startswith('raise '):
-                result = ['raise']
-                continue
-            if st.startswith('if ') and st.endswith(':'):
-                env['__guard__'] = st
-                continue
-            m = re.match(r'^([A-Za-z_]\w*)\s*(?::\s*[\w\.]+)?\s*=\s*(.+)$', st)
-            if not m:
-                mc = re.match(r'^(?:\w+\.)?(\w+)\s*\(', st)
-                if mc and mc.group(1) in REF_CALLS | DEREF_CALLS:
-                    continue      # reference bookkeeping: judged by the path analysis (Part B)
-                if st.startswith(("f'", "'", '"', 'f"')) or st.endswith(("')", '")')):
-                    continue      # continuation of a raise message
-                raise MachineryError('%s.apply: unrecognised statement %r' % (backend, st))
-            var, rhs = m.group(1), m.group(2)
-            e = subst(parse_expr(rhs), env)
-            if var == 'r':
-                result = e
-            env[var] = e
-        if result is None:
-            raise MachineryError('%s.apply: branch %r assigns no result' % (backend, br['ops']))
-        table.append(dict(ops=br['ops'], expr=normalise(result)))
+        ne = normalise(e)
+        for g in groups:
+            if g[0] == ne:
+                g[1].append(op)
+                break
+        else:
+            groups.append((ne, [op]))
+    # a symbol outside every condition must be rejected
+    if _run(backend, body, '<no such operator>') not in (['raise'], None):
+        raise MachineryError('%s.apply: an unknown operator symbol is not rejected' % backend)
+    table = [dict(ops=ops, expr=e) for e, ops in groups]
+    prelude = [st for ind, st in body if ind == body[0][0] and not _op_cond(st)]
     return dict(backend=backend, file=BACKENDS[backend], line=lineno, branches=table,
                 prelude=prelude)
 
@@ -384,7 +487,7 @@ def parse_block(ll, i, indent):
 def relevant(b):
     for it in b.items:
         if it[0] == 'stmt':
-            if _calls(it[1]) or it[1].startswith(('return', 'raise')) or 'wrap(' in it[1]:
+            if _calls(it[1]) or any((c + '(') in it[1] for c in OWNING_CALLS) or it[1].startswith(('return', 'raise')) or 'wrap(' in it[1]:
                 return True
         elif it[0] == 'if':
             if any(relevant(x) for _, x in it[1]):
@@ -436,6 +539,9 @@ def _paths(b, states, limit):
                     dec2 = {k: x for k, x in dec.items() if not re.search(r'\b%s\b' % re.escape(v), k)}
                 for f, a in _calls(s):
                     evs.append(['ref' if f in REF_CALLS else 'deref', al2.get(a, a)])
+                mo = re.match(r'^([A-Za-z_]\w*)\s*(?::\s*[\w\.]+)?\s*=\s*(?:\w+\.)?(\w+)\s*\(', s)
+                if mo and mo.group(2) in OWNING_CALLS:
+                    evs.append(['ref', mo.group(1)])      # the library hands over a referenced node
                 # a reference stored into a table is owned by the table from now on
                 mt = re.match(r'^\w+\[[^\]]*\]\s*=\s*(?:<[^>]*>\s*)+(\w+)$', s)
                 if mt:
@@ -458,13 +564,16 @@ def _paths(b, states, limit):
                 arms = list(enumerate(it[1])) + ([] if it[2] else [(len(it[1]), None)])
                 if key in dec:
                     arms = [x for x in arms if x[0] == dec[key]]
+                mn = re.match(r'^if (\w+) (?:is|==) NULL:$', key)
                 for idx, arm in arms:
                     d2 = dict(dec)
                     d2[key] = idx
+                    # `if x is NULL:` taken: the library returned no node, nothing is owned through x
+                    ev0 = ev + [['null', al.get(mn.group(1), mn.group(1))]] if (mn and idx == 0) else ev
                     if arm is None:
-                        new.append((ev, d2, al))
+                        new.append((ev0, d2, al))
                     else:
-                        new.extend(_paths(arm[1], [(ev, d2, al)], limit))
+                        new.extend(_paths(arm[1], [(ev0, d2, al)], limit))
             elif it[0] == 'loop':
                 if not relevant(it[1]):
                     new.append((ev, dec, al))
@@ -506,7 +615,7 @@ def extract_paths(backend):
     nfun = 0
     for name, cls, lineno, lines in functions(path):
         src = '\n'.join(lines)
-        if not any((c + '(') in src for c in REF_CALLS | DEREF_CALLS):
+        if not any((c + '(') in src for c in REF_CALLS | DEREF_CALLS | OWNING_CALLS):
             continue
         if name in SKIP_FUNCS:
             continue
